@@ -604,7 +604,7 @@ pub fn run(tier: Tier) -> i32 {
         let mut positions: Vec<usize> = (1..=(1 + nslices)).collect();
         let shred_pos: Vec<usize> = match tier {
             Tier::Quick => vec![2 + nslices, 3 + nslices, 1 + nslices + 32, 1 + nslices + 33, nreq],
-            Tier::Thorough => ((2 + nslices)..=nreq).step_by(if nslices == 1 { 1 } else { 5 }).chain([nreq]).collect(),
+            Tier::Thorough => ((2 + nslices)..=nreq).collect(),
         };
         positions.extend(shred_pos.into_iter().filter(|p| *p <= nreq));
         positions.sort();
@@ -635,6 +635,24 @@ pub fn run(tier: Tier) -> i32 {
                 }
             }
         }
+        // three deviations (thorough): metadata requests, the first shred request, the completing one
+        if tier == Tier::Thorough {
+            let tp = [1usize, 2, 2 + nslices, 1 + nslices + 32];
+            let tk = [Hostile::Nack, Hostile::InvalidProof, Hostile::OtherSignedSlice, Hostile::SameRootOtherLastFlag];
+            for a in 0..tp.len() {
+                for b in (a + 1)..tp.len() {
+                    for c in (b + 1)..tp.len() {
+                        for h1 in tk {
+                            for h2 in tk {
+                                for h3 in tk {
+                                    histories.push([(tp[a], h1), (tp[b], h2), (tp[c], h3)].into_iter().collect());
+                                }
+                            }
+                        }
+                    }
+                }
+            }
+        }
         let dbg = std::env::var("C14_DEBUG").is_ok();
         let outcomes: Vec<(BTreeMap<usize, Hostile>, Outcome)> = histories.into_par_iter().map(|d| {
             if dbg { eprintln!("start {d:?}"); }
@@ -652,17 +670,30 @@ pub fn run(tier: Tier) -> i32 {
         for pre in [Preheld::SameBlockPartial, Preheld::ConflictingBlock] {
             let env = Env { preheld: pre, retrigger_after: None };
             env_jobs.push((BTreeMap::new(), env));
-            for p in [1usize, 2, 2 + nslices, 3 + nslices, 1 + nslices + 20] {
-                for h in [Hostile::ShredCorrupted, Hostile::OtherSignedSlice, Hostile::SameRootOtherLastFlag, Hostile::InvalidProof, Hostile::Nack] {
-                    env_jobs.push(([(p, h)].into_iter().collect(), env));
+            let env_positions: Vec<usize> = match tier {
+                Tier::Quick => vec![1, 2, 2 + nslices, 3 + nslices, 1 + nslices + 20],
+                Tier::Thorough => positions.iter().copied().filter(|p| *p <= 6 + nslices || p % 8 == 0 || *p == nreq).collect(),
+            };
+            let env_kinds: Vec<Hostile> = tier.pick(vec![Hostile::ShredCorrupted, Hostile::OtherSignedSlice, Hostile::SameRootOtherLastFlag, Hostile::InvalidProof, Hostile::Nack], ALL_HOSTILE.to_vec());
+            for p in env_positions {
+                for h in &env_kinds {
+                    env_jobs.push(([(p, *h)].into_iter().collect(), env));
                 }
             }
         }
-        for p in [1usize, 2, 1 + nslices, 2 + nslices, 1 + nslices + 16, 1 + nslices + 31, 1 + nslices + 32, 1 + nslices + 33, 1 + nslices + 40, nreq.saturating_sub(1)] {
+        let again: Vec<usize> = match tier {
+            Tier::Quick => vec![1, 2, 1 + nslices, 2 + nslices, 1 + nslices + 16, 1 + nslices + 31, 1 + nslices + 32, 1 + nslices + 33, 1 + nslices + 40, nreq.saturating_sub(1)],
+            Tier::Thorough => (1..nreq).collect(),
+        };
+        for p in again {
             let env = Env { preheld: Preheld::Nothing, retrigger_after: Some(p) };
             env_jobs.push((BTreeMap::new(), env));
             env_jobs.push(([(p + 1, Hostile::DuplicateAnswer)].into_iter().collect(), env));
             env_jobs.push(([(p + 1, Hostile::Nack)].into_iter().collect(), env));
+            if tier == Tier::Thorough {
+                env_jobs.push(([(p + 1, Hostile::NackReplay)].into_iter().collect(), env));
+                env_jobs.push(([(p + 1, Hostile::OtherSignedSlice)].into_iter().collect(), env));
+            }
         }
         let env_outcomes: Vec<(BTreeMap<usize, Hostile>, Env, Outcome)> = env_jobs.into_par_iter().map(|(d, e)| { let o = run_history_env(&fx, &d, e); (d, e, o) }).collect();
         for (d, e, o) in &env_outcomes {
@@ -677,7 +708,7 @@ pub fn run(tier: Tier) -> i32 {
     let cov = json!({
         "evaluations": evals,
         "distinct_nontrivial": evals,
-        "rule": "real Repair loop and real RepairRequestHandler in a paused single-threaded runtime; default = every request answered correctly by the honest peer; every history with 1 hostile answer (12 kinds: NACK, silence, wrong variant, invalid proof, wrong index, wrong root, replay of another answer, shred/root of another validly signed slice of the leader, same root with other last flag, unsolicited answer first, duplicate answer, corrupted signature / over-long proof / inflated slice count) at every listed request position, and pairs of hostile answers on a position/kind subset; environment variants (victim already holds a few dissemination shreds of the same block / of a conflicting block of the leader; the pool requests the same repair again at various points); after the last hostile answer every request is answered correctly and up to 4 request time-outs may elapse: the repair task must be alive, nothing foreign may be stored under the requested id and the block must end up stored; plus the responder sweep (request kind x index x holding state x sender); every history / responder case is distinct and non-trivial",
+        "rule": "real Repair loop and real RepairRequestHandler in a paused single-threaded runtime; default = every request answered correctly by the honest peer; every history with 1 hostile answer (13 kinds: sustained NACK replay, NACK, silence, wrong variant, invalid proof, wrong index, wrong root, replay of another answer, shred/root of another validly signed slice of the leader, same root with other last flag, unsolicited answer first, duplicate answer, corrupted signature / over-long proof / inflated slice count) at every listed request position, and pairs (thorough: also triples) of hostile answers on a position/kind subset; environment variants (victim already holds a few dissemination shreds of the same block / of a conflicting block of the leader; the pool requests the same repair again at various points); after the last hostile answer every request is answered correctly and up to 4 request time-outs may elapse: the repair task must be alive, nothing foreign may be stored under the requested id and the block must end up stored; plus the responder sweep (request kind x index x holding state x sender); every history / responder case is distinct and non-trivial",
         "exhaustive": true,
         "families": fam,
         "samples": samples.items,
